@@ -572,7 +572,7 @@ fn gen_cont(g: &mut Gen, m: &Model, kind: Kind, cfg: &RunCfg, targets: &[u32], s
             });
         }
     }
-    let n = 2 + g.rng.usize(10);
+    let n = if light() { 1 + g.rng.usize(4) } else { 2 + g.rng.usize(10) };
     for _ in 0..n {
         let step = g.step(m, kind, &cfg2);
         let plan = if second_fault && g.rng.chance(1, 6) { Some((*g.rng.pick(&[Cb::Cmp, Cb::Cmp, Cb::Hash, Cb::Eq, Cb::Predicate, Cb::CloneKey, Cb::SourceNext]), g.rng.below(6))) } else { None };
@@ -627,6 +627,9 @@ impl Engine for CrashEngine {
             3..=6 => 3 + rng.usize(8),
             _ => 8 + rng.usize(24),
         };
+        if light() {
+            cfg.len = cfg.len.min(6);
+        }
         ledger_reset();
         // 1. fault-free prefix
         crate::hashers::set_current(cfg.hasher);
@@ -668,7 +671,8 @@ impl Engine for CrashEngine {
             }
             counts
         };
-        let conts = if tier == Tier::Quick { 2 } else { 3 };
+        let conts = if light() { 1 } else if tier == Tier::Quick { 2 } else { 3 };
+        let cap = if light() { 5 } else { 64 };
         let is_leak = matches!(op.fam(), Fam::IterMutLeak | Fam::DrainLeak);
         let mut plans: Vec<Option<(Cb, u64)>> = Vec::new();
         if is_leak {
@@ -676,12 +680,12 @@ impl Engine for CrashEngine {
         }
         for (ci, c) in ALL_CB.iter().enumerate() {
             let nc = counts[ci];
-            for k in 0..nc.min(64) {
+            for k in 0..nc.min(cap) {
                 plans.push(Some((*c, k)));
             }
-            if nc > 64 {
-                for _ in 0..8 {
-                    plans.push(Some((*c, 64 + g.rng.below(nc - 64))));
+            if nc > cap {
+                for _ in 0..(if light() { 1 } else { 8 }) {
+                    plans.push(Some((*c, cap + g.rng.below(nc - cap))));
                 }
             }
         }
